@@ -4,8 +4,8 @@
    connection id length bounds, role restrictions are generated constants of Gen_C14); [Rfc18_2] is the
    acceptance table transcribed from RFC 9000 7.4/16/18/18.2 and mentions no generated constant. *)
 From SQ Require Import lib.Base lib.C14Fmt gen.Gen_C14.
-From SQ Require model.TransportParams model.Rfc18_2 model.TpClass proofs.TransportParamsProofs.
-Import TransportParams Rfc18_2 TransportParamsProofs.
+From SQ Require model.TransportParams model.Rfc18_2 model.TpClass proofs.TransportParamsProofs proofs.TransportParamsCodecs.
+Import TransportParams Rfc18_2 TransportParamsProofs TransportParamsCodecs.
 Local Open Scope N_scope.
 
 (* the ids, in struct order, are the ones the translator read from the source and the RFC's ids;
@@ -49,26 +49,26 @@ Theorem C14_tp_malformed_rejected : forall server blk, wf_bytes blk = true ->
   rfc_entries (S (length blk)) blk = None -> impl_accept server blk = false.
 Proof. exact malformed_rejected. Qed.
 
-(* per-parameter table, every parameter except preferred_address and dc_supported_versions: what the RFC
-   obliges to reject the source rejects; what the RFC obliges to accept the source accepts, unless the
-   entry is in a known deviation class (TpClass.dev_class: ade_nonminimal, rscid_short) *)
-Theorem C14_tp_parameter_table : forall server f v, wf_bytes v = true -> easy_field f = true ->
+(* per-parameter table, every parameter (incl. preferred_address and dc_supported_versions): what the
+   RFC obliges to reject the source rejects; what the RFC obliges to accept the source accepts, unless
+   the entry is in a known deviation class (TpClass.dev_class: ade_nonminimal, rscid_short) *)
+Theorem C14_tp_parameter_table : forall server f v, wf_bytes v = true ->
   (entry_verdict server (fid f, v) = MustReject -> enabled server f = false \/ codec_ok f v = None) /\
   (entry_verdict server (fid f, v) = MustAccept -> TpClass.dev_class server (fid f, v) = 0 ->
      enabled server f = true /\ codec_ok f v <> None).
-Proof. exact table_easy. Qed.
+Proof. exact table_all. Qed.
 
-(* tp_accept_iff_rfc, partial: for every block without a preferred_address / dc_supported_versions entry
-   and without an entry of a known deviation class.  (With the source as it was before the fix commits the
-   table lemma fails to compile: max_ack_delay_bound_inclusive was true.)
-   Missing for the full statement: the preferred_address and dc_supported_versions codecs (they are
-   modelled and differentially tested, not proved against the RFC rule), and the two deviation classes,
-   for which the full statement is false: see C14_tp_accept_iff_rfc_refuted. *)
-Theorem C14_tp_accept_iff_rfc_partial : forall server blk es, wf_bytes blk = true ->
-  rfc_entries (S (length blk)) blk = Some es -> no_pa_dc es = true -> TpClass.has_dev server es = false ->
+(* tp_accept_iff_rfc for every block that contains no entry of the two known-finding classes
+   (KNOWN_FINDINGS.txt: ade_nonminimal, rscid_short); for those the statement is false of the source,
+   see C14_tp_accept_iff_rfc_refuted.  Both implications of the three-valued table: what the RFC obliges to
+   accept is accepted, what it obliges to reject is rejected.  (With the source as it was before the fix
+   commits the table lemma does not compile: max_ack_delay_bound_inclusive was true and
+   preferred_address_rejects_empty_cid false.) *)
+Theorem C14_tp_accept_iff_rfc_outside_known_findings : forall server blk es, wf_bytes blk = true ->
+  rfc_entries (S (length blk)) blk = Some es -> TpClass.has_dev server es = false ->
   (rfc_verdict server blk = MustAccept -> impl_accept server blk = true) /\
   (rfc_verdict server blk = MustReject -> impl_accept server blk = false).
-Proof. exact accept_iff_rfc_partial. Qed.
+Proof. exact accept_iff_rfc. Qed.
 
 (* the full statement is false of the faithful model: ack_delay_exponent = 3 in a two byte encoding, and
    a 2 byte retry_source_connection_id from a server, are blocks the RFC obliges to accept *)
@@ -95,6 +95,26 @@ Theorem C14_tp_session_cids : forall server blk peer retry initial,
     (server = true -> get FOdcid s = VBytes (Some initial) /\
        match retry with Some r => get FRscid s = VBytes (Some r) | None => get FRscid s = VBytes None end).
 Proof. exact session_accept_cids. Qed.
+
+(* ... and exactly: for a block the decoder accepts, the session goes on if and only if RFC 9000 7.3 does
+   not oblige the endpoint to fail (initial_source_connection_id present and equal to the peer's
+   connection id; from a server also original_destination_connection_id present and equal to the first
+   DCID, retry_source_connection_id present and equal to the Retry's SCID exactly when a Retry was
+   processed), and otherwise fails with TRANSPORT_PARAMETER_ERROR *)
+Theorem C14_tp_session_is_7_3 : forall server blk s es peer retry initial, wf_bytes blk = true ->
+  decode_parameters server blk = Ok s -> rfc_entries (S (length blk)) blk = Some es ->
+  session server blk peer retry initial =
+    if auth_fails server es retry initial peer then SError 8 else SAccept.
+Proof. exact session_is_7_3. Qed.
+
+(* judge_run for component sess: the executable 7.3 judgement accepts every run of the session model *)
+Theorem C14_sess_judge_model : forall c,
+  let c4 := snd (read_bytes (snd (read_bytes (snd (read_bytes (tl (tl c))))))) in
+  wf_bytes (map zN c4) = true ->
+  (forall es, rfc_entries (S (length (map zN c4))) (map zN c4) = Some es ->
+     TpClass.has_dev (negb (hd 0%Z c =? 0)%Z) es = false) ->
+  judge_sess c (sess_run c) = true.
+Proof. exact judge_sess_run. Qed.
 
 (* tp_applied_exact: every field of an accepted block is the value of the block's entry for that
    parameter, or the default *)
@@ -133,16 +153,18 @@ Theorem C14_tp_unknown_is_rfc_unknown : forall id,
   known id = match lookup id with Some _ => true | None => false end.
 Proof. exact known_lookup. Qed.
 
-(* the executable judgement against the model.  judge_run, partial: the accept/reject part for blocks
-   without preferred_address / dc entries and deviation classes, and all of it for malformed blocks;
-   the field-by-field part of the judgement (render = expected) is checked by execution only *)
+(* the executable judgement against the model.  judge_run, partial: the accept/reject part for every block
+   outside the known-finding classes, and all of it for malformed blocks; the field-by-field part of the
+   judgement (render = expected, 55 output positions) is checked by execution only (C14_example shows it
+   on concrete blocks), while C14_tp_applied_exact / C14_tp_declared_int_is_rfc / C14_tp_defaults_are_rfc
+   state the same content at Prop level *)
 Theorem C14_tp_judge_verdict_model_partial : forall c es,
   wf_bytes (case_block c) = true ->
   rfc_entries (S (length (case_block c))) (case_block c) = Some es ->
-  no_pa_dc es = true -> TpClass.has_dev (case_server c) es = false ->
+  TpClass.has_dev (case_server c) es = false ->
   (entries_verdict (case_server c) es = MustReject -> rejected (TransportParams.run c) = true) /\
   (entries_verdict (case_server c) es = MustAccept -> rejected (TransportParams.run c) = false).
-Proof. exact judge_verdict_run. Qed.
+Proof. exact judge_verdict_run_all. Qed.
 
 Theorem C14_tp_judge_malformed_model : forall c,
   wf_bytes (case_block c) = true ->
@@ -167,15 +189,25 @@ Proof.
   eexists. repeat split; reflexivity.
 Qed.
 
+(* non-vacuity at session level: a client that processed no Retry gets a server block carrying
+   retry_source_connection_id: 7.3 obliges it to fail, the model fails with code 8, the judgement accepts
+   that and would reject "continues" *)
+Example C14_sess_example :
+  let c := [1; 0; 0; 8; 1; 2; 3; 4; 5; 6; 7; 8; 0; 15; 0; 0; 8; 1; 2; 3; 4; 5; 6; 7; 8; 16; 4; 9; 9; 9; 9]%Z in
+  sess_run c = [1; 8]%Z /\ judge_sess c (sess_run c) = true /\ judge_sess c [0%Z] = false.
+Proof. vm_compute. repeat split; reflexivity. Qed.
+
 Print Assumptions C14_tp_ids.
 Print Assumptions C14_tp_bounds_are_rfc.
 Print Assumptions C14_tp_decode_is_grammar_then_fold.
 Print Assumptions C14_tp_malformed_rejected.
 Print Assumptions C14_tp_parameter_table.
-Print Assumptions C14_tp_accept_iff_rfc_partial.
+Print Assumptions C14_tp_accept_iff_rfc_outside_known_findings.
 Print Assumptions C14_tp_accept_iff_rfc_refuted.
 Print Assumptions C14_tp_error_code.
 Print Assumptions C14_tp_session_cids.
+Print Assumptions C14_tp_session_is_7_3.
+Print Assumptions C14_sess_judge_model.
 Print Assumptions C14_tp_applied_exact.
 Print Assumptions C14_tp_declared_int_is_rfc.
 Print Assumptions C14_tp_defaults_are_rfc.
@@ -184,3 +216,4 @@ Print Assumptions C14_tp_unknown_is_rfc_unknown.
 Print Assumptions C14_tp_judge_verdict_model_partial.
 Print Assumptions C14_tp_judge_malformed_model.
 Print Assumptions C14_example.
+Print Assumptions C14_sess_example.
